@@ -45,8 +45,29 @@ def points(rec):
         ra[g.random(n) < 0.1] = 0.0
         dec = rec["cdec"] + g.uniform(-rec["crad"], rec["crad"], n)
         dec = np.clip(dec, -90, 90)
+    elif k == "edge":
+        # points ON a boundary shared by triangles at every depth (the octant edges ra = 0/90/180/270 and dec = 0),
+        # within crad of a spot on it: neighbours fall on both sides of the edge
+        if rec.get("line") == "dec0":
+            ra = rec["cra"] + g.uniform(-rec["crad"], rec["crad"], n)
+            dec = np.zeros(n)
+        else:
+            ra = np.full(n, float(rec.get("line_ra", 0.0)))
+            dec = rec["cdec"] + g.uniform(-rec["crad"], rec["crad"], n)
+            dec = np.clip(dec, -90, 90)
     else:
         raise ValueError(k)
+    tw = rec.get("twin")
+    if tw and n > 1:
+        # the second half of the set are partners of the first half at about the separation `tw` (0.3 .. 1.3 of it,
+        # random direction): many pairs sit near the search radius and, for sets on an edge, across it
+        h = n // 2
+        rho = tw * g.uniform(0.3, 1.3, n - h)
+        psi = g.uniform(0, 2 * np.pi, n - h)
+        src = np.arange(n - h) % max(1, h)
+        ra2, dec2 = offset(ra[src], dec[src], rho, psi)
+        ra = np.concatenate([ra[:h], ra2])
+        dec = np.concatenate([dec[:h], dec2])
     if rec.get("dups") and n > 1:
         m = g.random(n) < 0.3
         src = g.integers(0, n, n)
@@ -75,11 +96,11 @@ def offset(ra0, dec0, rho_deg, psi):
 
 def draw_set(r, n_max, region=None):
     n = wpick(r, [(1, 1), (r.randrange(2, 12), 4), (r.randrange(12, n_max + 1), 3)])
-    kind = wpick(r, [("uniform", 2), ("cap", 5), ("pole", 2), ("seam", 2)])
+    kind = wpick(r, [("uniform", 2), ("cap", 5), ("pole", 2), ("seam", 2), ("edge", 2)])
     rec = {"kind": kind, "n": n, "seed": r.randrange(1 << 30), "dups": chance(r, 0.3)}
     if region is not None and chance(r, 0.8):
         # draw in the same region as another set so that pairs exist
-        for k in ("kind", "cra", "cdec", "crad", "sign"):
+        for k in ("kind", "cra", "cdec", "crad", "sign", "line", "line_ra"):
             if k in region:
                 rec[k] = region[k]
         return rec
@@ -92,6 +113,15 @@ def draw_set(r, n_max, region=None):
         rec["sign"] = pick(r, [1, -1])
     if kind == "seam":
         rec["cdec"] = round(r.uniform(-80, 80), 4)
+    if kind == "edge":
+        rec["crad"] = float("%.3g" % (10 ** r.uniform(-5, 0)))
+        if chance(r, 0.3):
+            rec["line"] = "dec0"
+            rec["cra"] = round(r.uniform(0, 360), 4)
+        else:
+            rec["line"] = "ra"
+            rec["line_ra"] = pick(r, [0.0, 90.0, 180.0, 270.0])
+            rec["cdec"] = round(r.uniform(-80, 80), 4)
     if chance(r, 0.1):
         rec["round"] = pick(r, [2, 4])
     return rec
@@ -133,10 +163,12 @@ def plan(S, prop, mode, tier, avoid):
             else:
                 rad = pick(r, [180.0, 90.0, 179.999])
             rad = min(rad, 180.0)
+            if 0.0 < rad < 1e-6:
+                rad = 1e-6              # the quantifier: radii 0 and 1e-6 .. 180 degrees
             radii.append(rad)
             q = base if chance(r, 0.2) else draw_set(r, 60, region=base)
             op = {"k": "match", "m": m, "q": q, "self": q is base, "radius": rad,
-                  "perpoint": chance(r, 0.25), "rseed": r.randrange(1 << 30),
+                  "perpoint": chance(r, 0.25) and not (0.0 < rad < 5e-6), "rseed": r.randrange(1 << 30),
                   "maxmatch": wpick(r, [(-1, 3), (0, 2), (1, 3), (2, 2), (r.randrange(3, 8), 1), (1000, 1)]),
                   "sink": wpick(r, [("mem", 3), ("file", 2)]), "path": "c%d_p%d.txt" % (c, r.randrange(2)),
                   "also": [a for a in ("oneshot", "depth2", "repeat") if chance(r, 0.35)],
@@ -159,7 +191,7 @@ def plan(S, prop, mode, tier, avoid):
             nb = wpick(r, [(1, 1), (r.randrange(2, 12), 4), (r.randrange(12, 61), 2)])
             reg = draw_set(r, 60)
             orad = float("%.4g" % (reg.get("crad", 30.0) * 10 ** r.uniform(-2.0, 0.3)))
-            orad = min(orad, 180.0)
+            orad = max(min(orad, 180.0), 1e-5)
             od = r.randrange(1, max_depth_for(orad) + 1)
             for j in range(r.randrange(2, 5)):
                 fill = dict(draw_set(r, 60, region=reg), n=nb)
@@ -170,6 +202,13 @@ def plan(S, prop, mode, tier, avoid):
                      "sink": wpick(r, [("mem", 3), ("file", 1)]), "path": "c%d_o.txt" % c,
                      "newbuf": chance(r, 0.15), "c": c}
                 ops.insert(r.randrange(1, len(ops) + 1), o)
+        if chance(r, 0.35):
+            # partners at about one of the search radii used on this matcher
+            tw = pick(r, [x for x in radii if x > 0] or [scale * 0.01])
+            base["twin"] = tw
+            for o in ops:
+                if o.get("k") == "match" and isinstance(o.get("q"), dict) and o["q"] is not base and chance(r, 0.5):
+                    o["q"]["twin"] = o["radius"] if o["radius"] > 0 else tw
         # depth: jointly with the largest radius used on this matcher (cost bound)
         dmax = max_depth_for(max(radii))
         ops[0]["depth"] = r.randrange(1, dmax + 1) if not chance(r, 0.4) else dmax
